@@ -102,7 +102,7 @@ HRPconvert(int32 fid, uint16 tag, uint16 ref, int32 xdim, int32 ydim, int16 sche
 
     HEclear();
 
-    file_rec = HAatom_object(fid);
+    file_rec = HIfid2rec(fid);
     if (BADFREC(file_rec) || SPECIALTAG(tag))
         HGOTO_ERROR(DFE_ARGS, FAIL);
 
@@ -399,7 +399,7 @@ HRPendaccess(accrec_t *access_rec)
         HGOTO_ERROR(DFE_ARGS, FAIL);
 
     /* convert file id to file record */
-    file_rec = HAatom_object(access_rec->file_id);
+    file_rec = HIfid2rec(access_rec->file_id);
     if (BADFREC(file_rec))
         HGOTO_ERROR(DFE_ARGS, FAIL);
 
